@@ -46,6 +46,13 @@ def struct_cpp(i, s):
         o.append("    for (std::size_t i = 0; i < n; ++i) for (std::size_t j = 0; j < %d; ++j) v.push_back(&av.at(i)[j]);" % ak.m)
         o.append("    return v;")
         o.append("  }")
+    st_idx = [j for j, L in enumerate(s.layers) if L.kind in g.Layer.STORAGE]
+    if arr_idx and st_idx and st_idx[0] + 1 == arr_idx[0]:
+        si = st_idx[0]
+        o.append("  static constexpr bool has_lattice = true;")
+        o.append("  static std::vector<T> lattice(const covfie::field<B> & f) { return vp::lattice_values<%s>(f.backend()%s); }" % (s.cpp_type(si), ".get_backend()" * si))
+    else:
+        o.append("  static constexpr bool has_lattice = false;")
     o.append("  static bool configs_equal(const covfie::field<B> & a, const covfie::field<B> & b, int & which) {")
     for idx in range(s.depth()):
         ch = ".backend()" + ".get_backend()" * idx
